@@ -87,6 +87,8 @@ func mkDeferred(g *cur, id, j int) func() {
 	return func() { g.emit("d-made " + strconv.Itoa(id) + " " + strconv.Itoa(j)) }
 }
 
+func sq(x int) int { return x*x + 1 }
+
 func deepRecover(g *cur) {
 	// recover called one call deeper than the deferred function: must not stop the panic
 	r := recover()
@@ -184,8 +186,15 @@ func node(g *cur, depth, id int) (res int) {
 	nd := g.next() % 4
 	counter := id * 100
 	for j := 0; j < nd; j++ {
-		kind := g.next() % 19
+		kind := g.next() % 20
 		switch kind {
+		case 19:
+			// operands that are themselves calls, the defer statement executed
+			// several times in the same frame
+			for i := 0; i < 3; i++ {
+				defer named(g, id, j, sq(i+id))
+				defer host.EmitS(g.tag, "d-nest "+strconv.Itoa(id)+" "+strconv.Itoa(sq(i)))
+			}
 		case 17:
 			// recover reached through a closure variable called BY a deferred
 			// literal: one call too deep, it must not stop the panic (a deferred
